@@ -407,18 +407,21 @@ func (d Dialer) Upgrade(conn io.ReadWriter, u *url.URL) (br *bufio.Reader, hs Ha
 			//   "The server selects one or none of the acceptable protocols
 			//   and echoes that value in its handshake to indicate that it has
 			//   selected that protocol."
+			var proto string
 			for _, want := range d.Protocols {
 				if string(v) == want {
-					hs.Protocol = want
+					proto = want
 					break
 				}
 			}
-			if hs.Protocol == "" {
+			if proto == "" {
 				// Server echoed subprotocol that is not present in client
-				// requested protocols.
+				// requested protocols. Note that this header may come more
+				// than once: every value has to be a requested one.
 				err = ErrHandshakeBadSubProtocol
 				return br, hs, err
 			}
+			hs.Protocol = proto
 
 		case headerSecExtensionsCanonical:
 			hs.Extensions, err = matchSelectedExtensions(v, d.Extensions, hs.Extensions)
